@@ -144,6 +144,42 @@ func runReplicas(r *hx.R, n int, w *hx.W, _ []string) error {
 		a.EndBlock(abci.RequestEndBlock{Height: 1}) // staking validator set update of the genesis block
 		a.Commit()
 	}
+	// probe: what a node has seen OUTSIDE the block history (here: replica 2's mempool check of an Ethereum tx with a gas price of
+	// exactly zero, which is legal and charged the base fee) must not change how it prices the txs of later blocks — a restarted
+	// node has seen none of it.  The replicas share one process, so a process-global parameter that moved shows on all of them at
+	// once: it is compared with its value before the check.
+	{
+		obs := hx.Recover(func() string {
+			hdr := tmproto.Header{Height: apps[0].LastBlockHeight() + 1, Time: t0}
+			fee := func() string {
+				c := apps[0].NewContext(true, hdr)
+				return apps[0].EvmKeeper.BaseFeeMicronibiPerGas(c).String() + "/" + apps[0].EvmKeeper.BaseFeeWeiPerGas(c).String()
+			}
+			before := fee()
+			c2 := apps[2].NewContext(true, hdr)
+			to := ethAccs[1].EthAddr
+			sp := ethMsgSpec{from: ethAccs[0], nonce: apps[2].EvmKeeper.GetAccNonce(c2, ethAccs[0].EthAddr), gasLimit: 21000, price: big.NewInt(0), value: big.NewInt(0), to: &to}
+			m, err := sp.build()
+			if err != nil {
+				return "agree (probe not built)"
+			}
+			tx, err := wrapEthMsgs(apps[2], []*evm.MsgEthereumTx{m})
+			if err != nil {
+				return "agree (probe not built)"
+			}
+			bz, err := apps[2].GetTxConfig().TxEncoder()(tx)
+			if err != nil {
+				return "agree (probe not built)"
+			}
+			res := apps[2].CheckTx(abci.RequestCheckTx{Tx: bz, Type: abci.CheckTxType_New})
+			after := fee()
+			if after != before {
+				return fmt.Sprintf("DIFFER feeparams(r2-after-checktx) stores=- before=%s after=%s", before, after)
+			}
+			return fmt.Sprintf("agree checktx=%d feeparams=%s", res.Code, before)
+		})
+		w.Step("replicas probe checktx-of-a-zero-price-ethtx", obs)
+	}
 	height := apps[0].LastBlockHeight()
 	now := t0
 	votePeriod := int64(3)
